@@ -167,9 +167,21 @@ func (s *Store) Delete(ctx context.Context, target ocispec.Descriptor) error {
 	defer s.sync.Unlock()
 
 	deleteQueue := []ocispec.Descriptor{target}
-	for len(deleteQueue) > 0 {
+	for isTarget := true; len(deleteQueue) > 0; isTarget = false {
 		head := deleteQueue[0]
 		deleteQueue = deleteQueue[1:]
+
+		if !isTarget {
+			// a node found dangling may have been removed earlier in this
+			// cascade, or may never have been stored (e.g. a foreign layer)
+			exists, err := s.storage.Exists(ctx, head)
+			if err != nil {
+				return err
+			}
+			if !exists {
+				continue
+			}
+		}
 
 		// get referrers if applicable
 		if s.AutoGC && descriptor.IsManifest(head) {
